@@ -14,8 +14,9 @@ and compared through the CRC-32 of the bytes the application read):
                                a ghost stream that fails without delivering a byte is tolerated and counted)
   dcstream:eof-incomplete      clean EOF although fewer bytes were read than the peer wrote before its FIN
   dcstream:hang                some side had no result before the (virtual) deadline
-  dcstream:error-late          vanished peer / unknown path secret: the failure arrived later than
-                               (vanish time +) idle timeout + slack
+  dcstream:error-late          vanished / stalled peer / unknown path secret: the failure arrived later than
+                               (vanish time +) idle timeout + slack (`dcstream:error-late:tcp` over TCP, where the
+                               harness measures wall-clock time)
   dcstream:wrong-data-instead-of-error   vanished peer / unknown path secret: clean EOF on a truncated response
   dcstream:spurious-error      both applications behaved and the network became clean, but a side saw an error
                                or the transfer is incomplete
@@ -141,7 +142,7 @@ def _random(rng, tier):
     elif max(req, resp) > 20000:
         wchunk = max(wchunk, 100)
         rchunk = max(rchunk, 100)
-    mtu = rng.choice(MTUS) if rng.random() < 0.7 else rng.randrange(1250, 32769)
+    mtu = rng.choices(MTUS, [3, 3, 3, 2, 1])[0] if rng.random() < 0.75 else rng.randrange(1250, 32769)
     smtu = None
     if rng.random() < 0.25:
         smtu = rng.choice(MTUS)
@@ -247,21 +248,26 @@ def oracle(ops, outs):
         faulty_peer = sop in ("vanish", "forget_secret", "stall")
         if faulty_peer:
             idle = int(p["idle_ms"])
+            tcp = p["proto"] == "tcp"
             # stall: the timer runs from the last peer activity (the ACKs of the request): 1 s of margin for it
             t0 = (int(p.get("vanish_us", 0)) + 999) // 1000 + (1000 if sop == "stall" else 0)
             for side in (("tc",) if sop == "stall" else ("tc", "ts")):
                 if o[side] != "-" and int(o[side]) > t0 + idle + SLACK_MS:
                     bad.append((i, "dcstream:error-late", f"{side}={o[side]} ms > {t0} + idle {idle} + slack {SLACK_MS} ms"))
             if o.get("late") == "1":
-                bad.append((i, "dcstream:error-late", "tcp: the client finished later than idle timeout + slack"))
+                # no virtual clock over TCP: the harness compares the client's wall-clock time with idle + slack
+                bad.append((i, "dcstream:error-late:tcp", "tcp: the peer application went silent while holding the stream; the client "
+                            "was still waiting after idle timeout + slack (no idle timer on reliable transports)"))
             s2c = o["s2c"]
-            if s2c["eof"] == "clean" and int(s2c["r"]) < resp:
-                bad.append((i, "dcstream:wrong-data-instead-of-error",
-                            f"client saw a clean EOF after {s2c['r']} of {resp} response bytes although the peer had {sop}"))
+            if not (tcp and sop in ("vanish", "stall")):
+                # (over TCP the frozen peer of the harness finally drops its stream, which is a proper FIN after 0 bytes)
+                if s2c["eof"] == "clean" and int(s2c["r"]) < resp and s2c["r"] != s2c["w"]:
+                    bad.append((i, "dcstream:wrong-data-instead-of-error",
+                                f"client saw a clean EOF after {s2c['r']} of {resp} response bytes although the peer had {sop}"))
+                if sop == "stall" and cop != "drop_early" and s2c["eof"] != "err":
+                    bad.append((i, "dcstream:wrong-data-instead-of-error",
+                                f"the peer never answered, yet the client's read did not fail (eof={s2c['eof']}, {s2c['r']} bytes)"))
             # (a client that drops the stream right after writing never looks at the outcome)
-            if sop == "stall" and cop != "drop_early" and s2c["eof"] != "err":
-                bad.append((i, "dcstream:wrong-data-instead-of-error",
-                            f"the peer never answered, yet the client's read did not fail (eof={s2c['eof']}, {s2c['r']} bytes)"))
             if sop == "forget_secret" and cop != "drop_early" and s2c["eof"] != "err" and o["cerr"] == "-":
                 bad.append((i, "dcstream:wrong-data-instead-of-error", "unknown path secret: the client saw no error at all"))
         elif cop in ("normal", "shutdown_early", "concurrent") and sop in ("normal", "write_first"):
